@@ -486,7 +486,7 @@ def rule_cutkind(ctx):
     CLS = [("K0", [], "b0"), ("K1", [cb("y", 21), cb("z", 22)], "b1")]
     CLC = [("d0", [cb("y", 21)], "b0"), ("d1", [cb("y", 21), cb("z", 22)], "b1")]
 
-    def run(prod, cons, ty, fv=None, multi=False):
+    def run(prod, cons, ty, fv=None, multi=False, max_depth=12):
         """fv: the free variables declared for the symbolic bodies (name -> list of ContextBinding); None: not declared (a body whose
         free variables the code asks for then cannot be followed)"""
         events = []
@@ -528,7 +528,7 @@ def rule_cutkind(ctx):
                 events.append(("subst", a0.name, pairs))
                 return _Sym("%s%s" % (a0.name, pairs))
             return NotImplemented
-        I = _interp.Interp(fx, hooks=[hook], max_depth=12, max_paths=64, max_steps=300000)
+        I = _interp.Interp(fx, hooks=[hook], max_depth=max_depth, max_paths=64, max_steps=300000)
         holder = _Adt(None, None, {"0": 100})
         state = _Adt("core2axcut::shrinking::ShrinkingState", "ShrinkingState", {
             "max_id": _MutInt(I, holder), "data": data, "codata": codata, "used_labels": _SetVal(), "current_label": "f", "lifted_statements": _Vec([])})
@@ -681,96 +681,143 @@ def rule_cutkind(ctx):
         ("<u - w | mu~v.s>", OP, mu(CNS, "v", V, "s", I64), I64, chk_op(V, "s")),
         ("<u - w | a>", OP, xvar(CNS, "a", A_, I64), I64, chk_op(None, None)),
     ]
-    def binder_of(term):
-        """(id, chirality of the bound (co)variable, type) of a mu / mu~ abstraction"""
-        inner = term.fields["0"]
-        if term.variant != "Mu":
-            return None
-        return inner.fields["variable"], ("Cns" if inner.fields["prdcns"].variant == "Prd" else "Prd"), inner.fields["ty"]
-    for label, prod, cons, ty, chk in cases:
-        # the bodies are symbolic; when the code asks for their free variables the answer is declared, once with the binder of the
-        # abstraction occurring in its body and once without (a body that never returns to / never uses what the abstraction binds)
-        bodies = {}
-        for side in (prod, cons):
-            bd = binder_of(side)
-            if bd:
-                bodies[side.fields["0"].fields["statement"].name] = _Adt(CL + "context::ContextBinding", "ContextBinding",
-                                                                        {"var": bd[0], "chi": _Adt(CL + "context::Chirality", bd[1], {}), "ty": bd[2]})
-        variants = [("", {b_: [cb_] for b_, cb_ in bodies.items()})]
-        if bodies:
-            variants.append((" [binder unused in its body]", {b_: [] for b_ in bodies}))
-        for vlabel, fv in variants:
-            try:
-                r, msg, ev = run(prod, cons, ty, fv)
-            except AnalysisError:
-                if vlabel:
-                    raise
-                r, msg, ev = run(prod, cons, ty, None)
-            asked = any(e[0] == "fv" for e in ev)
-            if vlabel and not asked:
-                continue        # the translation never looks at the free variables: one variant says it all
-            ikey = label + vlabel
-            if msg:
-                res.inst(ikey, f["sp"]["file"], f["sp"]["line"], "violation")
-                res.violate(ikey, "%s: %s" % (label + vlabel, msg), f["sp"]["file"], f["sp"]["line"])
-                continue
-            kind, st = unwrap(r)
-            try:
-                problem = chk(kind, st, [e for e in ev if e[0] != "fv"])
-                if problem and vlabel and isinstance(st, _Sym):
-                    # dead-continuation shortcut: a producer abstraction whose body never returns makes the other side unreachable
-                    # when the producer runs first - every shape of this table (data and codata consumers that are not abstractions)
-                    pb = binder_of(prod)
-                    if pb and st.name == "sh(%s)" % prod.fields["0"].fields["statement"].name and cons.variant != "Mu":
-                        problem = None
-            except (KeyError, AttributeError) as e:
-                raise AnalysisError("R-CUTKIND: the translation of %s is not a concrete statement (%r)" % (label, e))
-            if problem:
-                res.inst(ikey, f["sp"]["file"], f["sp"]["line"], "violation")
-                res.violate(ikey, "%s%s %s" % (label, vlabel, problem), f["sp"]["file"], f["sp"]["line"])
-            else:
-                res.inst(ikey, f["sp"]["file"], f["sp"]["line"], "ok")
-    # evaluation order of critical pairs <mu a.s | mu~ x.t>: at a data type or i64 the producer's body runs first, at a codata type the
-    # consumer's; the body that runs first is translated whatever the other one looks like - also when it never uses its binder
-    for tyname, ty_, first in (("data", TD, "s"), ("codata", TC, "t"), ("i64", I64, "s")):
-        prod, cons = mu(PRD, "a", V, "s", ty_), mu(CNS, "x", X, "t", ty_)
-        pa = _Adt(CL + "context::ContextBinding", "ContextBinding", {"var": ident("a", V), "chi": _Adt(CL + "context::Chirality", "Cns", {}), "ty": ty_})
-        px = _Adt(CL + "context::ContextBinding", "ContextBinding", {"var": ident("x", X), "chi": _Adt(CL + "context::Chirality", "Prd", {}), "ty": ty_})
-        for vlabel, fv in (("", {"s": [pa], "t": [px]}), (" [a unused in s]", {"s": [], "t": [px]}), (" [x unused in t]", {"s": [pa], "t": []})):
-            ikey = "<mu a.s | mu~ x.t> at a %s type%s" % (tyname, vlabel)
-            try:
-                paths, msg, ev = run(prod, cons, ty_, fv, multi=True)
-            except AnalysisError as e:
-                if vlabel:
-                    raise
-                res.notes.append("%s: not decided (%s)" % (ikey, str(e)[:120]))
-                break
-            if msg:
-                res.inst(ikey, f["sp"]["file"], f["sp"]["line"], "violation")
-                res.violate(ikey, "%s: %s" % (ikey, msg), f["sp"]["file"], f["sp"]["line"])
-                continue
+    # chains of renamings: the body of a renaming is itself a renaming *of the variable just bound*; the two are eliminated one after
+    # the other, so the innermost statement sees both binders replaced by the outermost variable.  (A simultaneous substitution
+    # that is not composed leaves the inner target - the eliminated binder - behind, bound nowhere.)
+    Z = V + 7
 
-            def mentions(v, d=0):
-                v = v if not isinstance(v, _interp.Ref) else None
-                if isinstance(v, _Sym):
-                    return re.split(r"[.\[!{]", v.name[3:] if v.name.startswith("sh(") else v.name)[0] == first
-                if isinstance(v, _Adt) and d < 12:
-                    return any(mentions(x, d + 1) for x in v.fields.values())
-                if isinstance(v, _Vec) and d < 12:
-                    return any(mentions(x, d + 1) for x in v.items)
-                return False
-            missing = None
-            for o in paths:
-                shrunk = [e[1] for e in o.events if e[0] == "shrink"]
-                if not (any(re.split(r"[.\[!{]", n_)[0] == first for n_ in shrunk) or mentions(o.result)):
-                    missing = shrunk
-            shrunk = missing or []
-            if missing is None:
-                res.inst(ikey, f["sp"]["file"], f["sp"]["line"], "ok", "the body that runs first (%s) is translated on each of %d paths" % (first, len(paths)))
-            else:
-                res.inst(ikey, f["sp"]["file"], f["sp"]["line"], "violation")
-                res.violate(ikey, "%s: the body `%s`, which runs first at a %s type, is not part of the translation (translated: %s): the other side was "
-                            "taken to run first, so effects and non-termination of the two bodies happen in the wrong order or not at all" %
-                            (ikey, first, tyname, ", ".join(shrunk) or "nothing"), f["sp"]["file"], f["sp"]["line"])
-    res.require_floor(16)
+    def mu_c(pc, nm, i, stmt, ty):
+        return T("Mu", _Adt(CL + "terms::mu::Mu", "Mu", {"prdcns": pc, "variable": ident(nm, i), "statement": stmt, "ty": ty}))
+
+    def stmt(variant, inner):
+        return _Adt(CL + "statements::FsStatement", variant, {"0": inner})
+
+    def call_g(bs):
+        return stmt("Call", _Adt(CL + "statements::call::FsCall", "FsCall", {"name": ident("g", 0), "args": tctx(bs)}))
+    chains = [
+        ("<x | mu~v.<v | mu~z.g(z, v)>>", xvar(PRD, "x", X, TD),
+         mu_c(CNS, "v", V, stmt("Cut", _Adt(CL + "statements::cut::Cut", "Cut", {
+             "producer": xvar(PRD, "v", V, TD), "ty": TD, "consumer": mu_c(CNS, "z", Z, call_g([cb("z", Z, "Prd", TD), cb("v", V, "Prd", TD)]), TD)})), TD), [X, X]),
+        ("<mu a.<mu b.g(b, a) | a> | c>",
+         mu_c(PRD, "a", V, stmt("Cut", _Adt(CL + "statements::cut::Cut", "Cut", {
+             "producer": mu_c(PRD, "b", Z, call_g([cb("b", Z, "Cns", TD), cb("a", V, "Cns", TD)]), TD), "ty": TD, "consumer": xvar(CNS, "a", V, TD)})), TD),
+         xvar(CNS, "c", A_, TD), [A_, A_]),
+    ]
+    for label, prod, cons, want in chains:
+        r, msg, ev = run(prod, cons, TD, None, max_depth=24)
+        if msg:
+            res.inst(label, f["sp"]["file"], f["sp"]["line"], "violation")
+            res.violate(label, "%s: %s" % (label, msg), f["sp"]["file"], f["sp"]["line"])
+            continue
+        kind, st = unwrap(r)
+        got = arg_ids(st.fields.get("args")) if isinstance(st, _Adt) else None
+        if kind != "Call" or got is None:
+            raise AnalysisError("R-CUTKIND: the translation of %s is not a concrete call (%r)" % (label, r))
+        if got != want:
+            res.inst(label, f["sp"]["file"], f["sp"]["line"], "violation")
+            res.violate(label, "%s is translated to g(%s), expected g(%s): a renaming whose target is the binder of the renaming around it must see "
+                        "that binder replaced too (the substitutions of a chain are composed, not applied side by side) - otherwise an eliminated "
+                        "binder stays in the program, bound nowhere" % (label, ", ".join(map(str, got)), ", ".join(map(str, want))), f["sp"]["file"], f["sp"]["line"])
+        else:
+            res.inst(label, f["sp"]["file"], f["sp"]["line"], "ok", "both binders replaced by %d" % want[0])
+    def symbolic_cases():
+        def binder_of(term):
+            """(id, chirality of the bound (co)variable, type) of a mu / mu~ abstraction"""
+            inner = term.fields["0"]
+            if term.variant != "Mu":
+                return None
+            return inner.fields["variable"], ("Cns" if inner.fields["prdcns"].variant == "Prd" else "Prd"), inner.fields["ty"]
+        for label, prod, cons, ty, chk in cases:
+            # the bodies are symbolic; when the code asks for their free variables the answer is declared, once with the binder of the
+            # abstraction occurring in its body and once without (a body that never returns to / never uses what the abstraction binds)
+            bodies = {}
+            for side in (prod, cons):
+                bd = binder_of(side)
+                if bd:
+                    bodies[side.fields["0"].fields["statement"].name] = _Adt(CL + "context::ContextBinding", "ContextBinding",
+                                                                            {"var": bd[0], "chi": _Adt(CL + "context::Chirality", bd[1], {}), "ty": bd[2]})
+            variants = [("", {b_: [cb_] for b_, cb_ in bodies.items()})]
+            if bodies:
+                variants.append((" [binder unused in its body]", {b_: [] for b_ in bodies}))
+            for vlabel, fv in variants:
+                try:
+                    r, msg, ev = run(prod, cons, ty, fv)
+                except AnalysisError:
+                    if vlabel:
+                        raise
+                    r, msg, ev = run(prod, cons, ty, None)
+                asked = any(e[0] == "fv" for e in ev)
+                if vlabel and not asked:
+                    continue        # the translation never looks at the free variables: one variant says it all
+                ikey = label + vlabel
+                if msg:
+                    res.inst(ikey, f["sp"]["file"], f["sp"]["line"], "violation")
+                    res.violate(ikey, "%s: %s" % (label + vlabel, msg), f["sp"]["file"], f["sp"]["line"])
+                    continue
+                kind, st = unwrap(r)
+                try:
+                    problem = chk(kind, st, [e for e in ev if e[0] != "fv"])
+                    if problem and vlabel and isinstance(st, _Sym):
+                        # dead-continuation shortcut: a producer abstraction whose body never returns makes the other side unreachable
+                        # when the producer runs first - every shape of this table (data and codata consumers that are not abstractions)
+                        pb = binder_of(prod)
+                        if pb and st.name == "sh(%s)" % prod.fields["0"].fields["statement"].name and cons.variant != "Mu":
+                            problem = None
+                except (KeyError, AttributeError) as e:
+                    raise AnalysisError("R-CUTKIND: the translation of %s is not a concrete statement (%r)" % (label, e))
+                if problem:
+                    res.inst(ikey, f["sp"]["file"], f["sp"]["line"], "violation")
+                    res.violate(ikey, "%s%s %s" % (label, vlabel, problem), f["sp"]["file"], f["sp"]["line"])
+                else:
+                    res.inst(ikey, f["sp"]["file"], f["sp"]["line"], "ok")
+        # evaluation order of critical pairs <mu a.s | mu~ x.t>: at a data type or i64 the producer's body runs first, at a codata type the
+        # consumer's; the body that runs first is translated whatever the other one looks like - also when it never uses its binder
+        for tyname, ty_, first in (("data", TD, "s"), ("codata", TC, "t"), ("i64", I64, "s")):
+            prod, cons = mu(PRD, "a", V, "s", ty_), mu(CNS, "x", X, "t", ty_)
+            pa = _Adt(CL + "context::ContextBinding", "ContextBinding", {"var": ident("a", V), "chi": _Adt(CL + "context::Chirality", "Cns", {}), "ty": ty_})
+            px = _Adt(CL + "context::ContextBinding", "ContextBinding", {"var": ident("x", X), "chi": _Adt(CL + "context::Chirality", "Prd", {}), "ty": ty_})
+            for vlabel, fv in (("", {"s": [pa], "t": [px]}), (" [a unused in s]", {"s": [], "t": [px]}), (" [x unused in t]", {"s": [pa], "t": []})):
+                ikey = "<mu a.s | mu~ x.t> at a %s type%s" % (tyname, vlabel)
+                try:
+                    paths, msg, ev = run(prod, cons, ty_, fv, multi=True)
+                except AnalysisError as e:
+                    if vlabel:
+                        raise
+                    res.notes.append("%s: not decided (%s)" % (ikey, str(e)[:120]))
+                    break
+                if msg:
+                    res.inst(ikey, f["sp"]["file"], f["sp"]["line"], "violation")
+                    res.violate(ikey, "%s: %s" % (ikey, msg), f["sp"]["file"], f["sp"]["line"])
+                    continue
+
+                def mentions(v, d=0):
+                    v = v if not isinstance(v, _interp.Ref) else None
+                    if isinstance(v, _Sym):
+                        return re.split(r"[.\[!{]", v.name[3:] if v.name.startswith("sh(") else v.name)[0] == first
+                    if isinstance(v, _Adt) and d < 12:
+                        return any(mentions(x, d + 1) for x in v.fields.values())
+                    if isinstance(v, _Vec) and d < 12:
+                        return any(mentions(x, d + 1) for x in v.items)
+                    return False
+                missing = None
+                for o in paths:
+                    shrunk = [e[1] for e in o.events if e[0] == "shrink"]
+                    if not (any(re.split(r"[.\[!{]", n_)[0] == first for n_ in shrunk) or mentions(o.result)):
+                        missing = shrunk
+                shrunk = missing or []
+                if missing is None:
+                    res.inst(ikey, f["sp"]["file"], f["sp"]["line"], "ok", "the body that runs first (%s) is translated on each of %d paths" % (first, len(paths)))
+                else:
+                    res.inst(ikey, f["sp"]["file"], f["sp"]["line"], "violation")
+                    res.violate(ikey, "%s: the body `%s`, which runs first at a %s type, is not part of the translation (translated: %s): the other side was "
+                                "taken to run first, so effects and non-termination of the two bodies happen in the wrong order or not at all" %
+                                (ikey, first, tyname, ", ".join(shrunk) or "nothing"), f["sp"]["file"], f["sp"]["line"])
+    try:
+        symbolic_cases()
+    except AnalysisError as e:
+        if not res.violations:
+            raise
+        res.notes.append("the symbolic cases were not decided (%s); the violations above come from the concrete renaming chains" % str(e)[:160])
+        return res
+    res.require_floor(18)
     return res
